@@ -116,8 +116,8 @@ def _one(job):
 
 def sweep(mod, repo, run, max_mutants=1500):
     quals = []
-    for o in run.obligations:
-        q = o['qualname'].split('.<locals>')[0]
+    from . import tracer as _tr, fde as _fde
+    for q in [o['qualname'].split('.<locals>')[0] for o in run.obligations] + sorted(q.split('.<locals>')[0] for q in (_tr.TOUCHED | _fde.TOUCHED)):
         if q in repo.functions and q not in quals:
             quals.append(q)
     jobs = []
